@@ -62,6 +62,20 @@ def main(argv=None):
     return finish(ctx, mod, write_evidence=not args.no_evidence)
 
 
+def validate_json(schema, path):
+    """Validate with the tooling interpreter (jsonschema is not installed in /venv).  Returns
+    an error text, or '' when valid or when no validator is available."""
+    import shutil
+    import subprocess
+    vt = shutil.which('python3-vt') or '/opt/veriftools/pyvenv/bin/python'
+    if not os.path.exists(schema) or not (vt and os.path.exists(vt)):
+        return ''
+    from mc import core
+    p = subprocess.run([vt, os.path.join(core.VERIF, 'mc', 'validate.py'), schema, path],
+                       capture_output=True, text=True)
+    return '' if p.returncode == 0 else (p.stderr or p.stdout)
+
+
 def replay(mod, path):
     from mc import core
     with open(path) as f:
@@ -160,17 +174,14 @@ def finish(ctx, mod, write_evidence=True):
     if vac:
         print('HARNESS-ERROR ' + vac)
     if write_evidence:
-        try:
-            import jsonschema
-            with open('/root/.vp/EVIDENCE.schema.json') as f:
-                jsonschema.validate(ev, json.load(f))
-        except ImportError:
-            pass
-        except FileNotFoundError:
-            pass
         os.makedirs(os.path.join(core.VERIF, 'evidence'), exist_ok=True)
-        with open(os.path.join(core.VERIF, 'evidence', prop + '.json'), 'w') as f:
+        evp = os.path.join(core.VERIF, 'evidence', prop + '.json')
+        with open(evp, 'w') as f:
             json.dump(ev, f, indent=1, sort_keys=True)
+        bad = validate_json('/root/.vp/EVIDENCE.schema.json', evp)
+        if bad:
+            print('HARNESS-ERROR evidence does not validate: ' + bad[-600:])
+            harness.append({'sig': 'harness/evidence'})
     if n_viol:
         return 1
     if harness or vac:
